@@ -304,14 +304,12 @@ func (e *Engine) mergeVal(g string, a, b Val, sa, sb *State, what string) Val {
 				return PtrV{Nil: nilT, Cell: y.Cell, Elem: y.Elem, Name: y.Name, Cands: y.Cands}
 			case y.Nil == "true":
 				return PtrV{Nil: nilT, Cell: x.Cell, Elem: x.Elem, Name: x.Name, Cands: x.Cands}
-			case e.cfg.Effects && e.mergeOut != nil && e.freshMergeDepth == 0 && types.Identical(x.Elem, y.Elem) && e.freshResultPtr(x, sa) && e.freshResultPtr(y, sb) && isStructType(x.Elem):
-				// two symbolic objects that nothing has looked into yet (results of two calls in two branches): one new
-				// object whose fields are the conditional of theirs (captures of the results keep the objects as returned)
+			case e.cfg.Effects && e.mergeOut != nil && e.freshMergeDepth == 0 && types.Identical(x.Elem, y.Elem) && isStructType(x.Elem) && e.objectContent(x, sa) != nil && e.objectContent(y, sb) != nil:
+				// two symbolic objects (results of two calls in two branches, looked into or not): one new object whose
+				// fields are the conditional of theirs (captures of the results keep the objects as returned)
 				e.freshMerges++
-				stt := x.Elem.Underlying().(*types.Struct)
 				c := e.newCell(x.Elem, x.Name+"|"+y.Name)
-				ca := StructV{Typ: stt, F: make([]Val, stt.NumFields()), Sym: x.Name}
-				cb := StructV{Typ: stt, F: make([]Val, stt.NumFields()), Sym: y.Name}
+				ca, cb := e.objectContent(x, sa), e.objectContent(y, sb)
 				e.freshMergeDepth++ // pointers inside the two objects are not merged this way (lazily symbolic objects are infinite trees)
 				e.mergeOut.cells[c] = e.mergeVal(g, ca, cb, sa, sb, what)
 				e.freshMergeDepth--
@@ -443,4 +441,35 @@ func (e *Engine) freshResultPtr(p PtrV, st *State) bool {
 		return false
 	}
 	return true
+}
+
+// objectContent gives the struct a (non-merged) pointer points to in state st: the contents of its cell, the initial
+// contents of a materialised input object, or the lazily symbolic fields of a symbolic object nobody looked into yet.
+func (e *Engine) objectContent(p PtrV, st *State) Val {
+	if p.Nil == "true" || strings.HasPrefix(p.Name, "mergedptr!") || len(p.Cands) > 0 || p.Name == "snap" || p.Name == "nilptr" {
+		return nil
+	}
+	if _, boxed := e.boxedTerm[p.Name]; boxed {
+		return nil
+	}
+	c := p.Cell
+	if c == nil && p.Name != "" {
+		c = e.ptrCell[p.Name]
+	}
+	if c != nil {
+		if v, ok := st.cells[c]; ok {
+			return v
+		}
+		if v, ok := e.inputCells[c]; ok {
+			return v
+		}
+		return nil
+	}
+	if p.Name == "" {
+		return nil
+	}
+	if stt, ok := p.Elem.Underlying().(*types.Struct); ok {
+		return StructV{Typ: stt, F: make([]Val, stt.NumFields()), Sym: p.Name}
+	}
+	return nil
 }
